@@ -92,7 +92,8 @@ func EntryKeyParse(key []byte) (string, TermType, []byte, string) {
 	ttype := TermType(tmp[2][0])
 	suffix := tmp[3]
 	if ttype == TermNumber {
-		return field, ttype, suffix[0:8], string(suffix[8:])
+		//suffix: 8 term bytes | 0 | docid
+		return field, ttype, suffix[0:8], string(suffix[9:])
 	}
 	stmp := bytes.Split(suffix, []byte{0})
 	return field, ttype, stmp[0], string(stmp[1])
